@@ -33,7 +33,12 @@ func openCases(prop, tier string, seed uint64) []Case {
 		cases = append(cases, Case{ID: "c16-witness-" + wn, Seed: 11, Kind: "witness:" + wn, P: pb})
 	}
 	for i := 0; i < n; i++ {
-		pb, _ := json.Marshal(openP{Cfg: cfgs[i%len(cfgs)], Steps: 4 + r.Intn(9)})
+		oc := cfgs[i%len(cfgs)]
+		if i%4 == 3 {
+			// the first session names the root the other ways the project's own tests do
+			oc.RootProp = []string{"./", "."}[(i/4)%2]
+		}
+		pb, _ := json.Marshal(openP{Cfg: oc, Steps: 4 + r.Intn(9)})
 		cases = append(cases, Case{ID: fmt.Sprintf("c16-%04d", i), Seed: subSeed(seed, prop, tier, fmt.Sprint(i)), Kind: "random", P: pb})
 	}
 	return cases
@@ -93,6 +98,34 @@ func scratchState(w *Worker, cfg Cfg, img []byte) (tree Tree, dbPath string, has
 	return tree, dbPath, hasRoot, ierr, nil
 }
 
+// mismatchedOpen runs the documented open sequence, index absent, over a tape that has a root but that this instance cannot index
+// (torn behind the root, written with other keys or another pipeline). Failing is fine; changing the tape is not.
+func mismatchedOpen(w *Worker, cfg Cfg, before []byte, viol func(sig, format string, a ...any), sig, what string) bool {
+	d := w.NewDir("c16m")
+	_ = os.MkdirAll(tapeDir(d), 0o777)
+	drive := tapeDir(d) + "/drive.tar"
+	if err := os.WriteFile(drive, before, 0o666); err != nil {
+		return true
+	}
+	rig, err := NewRig(d, cfg)
+	if err != nil {
+		return true
+	}
+	defer rig.Close()
+	oerr := rig.Init()
+	rig.LocksSettled()
+	after, _ := os.ReadFile(drive)
+	if !bytes.HasPrefix(after, before) {
+		viol(sig+"|rewrote-tape", "%s: construct+Initialize (err=%v) removed or rewrote tape content (%d bytes before, %d after)", what, oerr, len(before), len(after))
+		return false
+	}
+	if len(after) != len(before) {
+		viol(sig+"|appended-although-root-exists", "%s: Initialize (err=%v) appended %d bytes to a tape that already has a root directory", what, oerr, len(after)-len(before))
+		return false
+	}
+	return true
+}
+
 func openRun(prop, tier string, c Case, w *Worker) (res Result) {
 	var p openP
 	_ = json.Unmarshal(c.P, &p)
@@ -120,6 +153,8 @@ func openRun(prop, tier string, c Case, w *Worker) (res Result) {
 			res.Verdict, res.Msg = "inconclusive", "tape length not aligned"
 			return
 		}
+		// the intact tape with the index file the writing session itself left behind (a restart)
+		scen = append(scen, openScenario{L: n, Index: "session"})
 		// the drive is named through a symbolic link
 		scen = append(scen, openScenario{L: n, Index: "absent", Link: true}, openScenario{L: n, Index: "current", Link: true})
 		// tails: zero blocks over several orders of magnitude (a 5000-block tail = a 2.5 MiB preallocated image) and junk,
@@ -189,10 +224,50 @@ func openRun(prop, tier string, c Case, w *Worker) (res Result) {
 			res.Verdict, res.Msg = "inconclusive", herr.Error()
 			return
 		}
+		if p.Witness == "" && ierr != nil && hasRoot && sc.Index == "absent" && !sc.Link {
+			// a prefix that ends inside a record, so that a from-scratch rebuild fails behind a root it has already seen: opening may
+			// fail, but it must leave the tape as it is (nothing removed, nothing appended behind the torn record)
+			if !mismatchedOpen(w, cfg, before, viol, "torn", fmt.Sprintf("rebuild fails with %v", ierr)) {
+				return
+			}
+			res.count("torn_prefix_opens_checked", 1)
+			continue
+		}
 		if p.Witness == "" && (ierr != nil || !hasRoot) {
 			// a prefix whose from-scratch rebuild fails or has no root: the shapes of the open findings, visited only by their witnesses
 			res.count("scenarios_skipped_rebuild_fails_or_no_root", 1)
 			continue
+		}
+		if p.Witness == "" && sc.L == n && sc.Index == "absent" && sc.Pad == 0 && sc.Junk == 0 && !sc.Link {
+			// the intact tape opened by an instance that cannot read it: other keys, or another pipeline than the one that wrote it.
+			// The tape has a root (the rightful configuration finds it), so nothing may be appended - a record written with the
+			// wrong key or codec would make the owner's next rebuild fail
+			var others []Cfg
+			if cfg.Enc != "" || cfg.Sig != "" {
+				o := cfg
+				o.Foreign = true
+				others = append(others, o)
+			}
+			o := cfg
+			if o.Enc == "" {
+				o.Enc = "age"
+			} else {
+				o.Enc = ""
+			}
+			others = append(others, o)
+			o = cfg
+			if o.Comp == "" {
+				o.Comp = "gzip"
+			} else {
+				o.Comp = ""
+			}
+			others = append(others, o)
+			for _, oc := range others {
+				if !mismatchedOpen(w, oc, before, viol, "mismatched", "opened as "+oc.String()) {
+					return
+				}
+				res.count("mismatched_configuration_opens_checked", 1)
+			}
 		}
 		d := w.NewDir("c16")
 		_ = os.MkdirAll(tapeDir(d), 0o777)
@@ -214,6 +289,12 @@ func openRun(prop, tier string, c Case, w *Worker) (res Result) {
 			return
 		}
 		switch sc.Index {
+		case "session":
+			if err := copyFile(t.dir+"/index.sqlite", d+"/index.sqlite"); err != nil {
+				res.Verdict, res.Msg = "inconclusive", err.Error()
+				return
+			}
+			res.count("scenarios_index_of_the_writing_session", 1)
 		case "current":
 			if err := copyFile(sdb, d+"/index.sqlite"); err != nil {
 				res.Verdict, res.Msg = "inconclusive", err.Error()
@@ -250,10 +331,8 @@ func openRun(prop, tier string, c Case, w *Worker) (res Result) {
 			}
 			if oerr != nil {
 				res.count("opens_failing", 1)
-				if p.Witness != "" {
-					viol("open-failed", "Initialize failed: %v", oerr)
-					return false
-				}
+				// failing without touching the tape is allowed by C16 (witness cases included: the cut-inside-content witness fails
+				// cleanly since fix e-initialize, see KNOWN_FINDINGS)
 				return true
 			}
 			res.count("opens_ok", 1)
